@@ -320,6 +320,11 @@ func (m *vMonC16) AfterTx(h *vHist, o *vTxObs) {
 		switch strings.SplitN(c, "|", 2)[0] {
 		case "deployment-updated", "provider-created", "provider-updated", "provider-deleted", "attestation-created", "attestation-deleted":
 			action = append(action, c)
+		case "unknown":
+			// a well-formed marketplace event of a kind the statement does not
+			// speak of (it decodes, it re-encodes to what was emitted): not a
+			// created / closed / paused / started event, nothing to judge
+			m.res.Count("decoded_events_of_kinds_the_statement_does_not_name", 1)
 		default:
 			lifecycle = append(lifecycle, c)
 		}
@@ -392,6 +397,9 @@ func (m *vMonC16) judgeLifecycle(h *vHist, o *vTxObs, kind string, lifecycle []s
 	for _, c := range lifecycle {
 		parts := strings.SplitN(c, "|", 3)
 		if len(parts) < 2 {
+			continue
+		}
+		if !strings.Contains(parts[0], "-") {
 			continue
 		}
 		typ := strings.SplitN(parts[0], "-", 2)[0]
